@@ -5,6 +5,11 @@
 
 package governance
 
+// govRewardPool(st): RewardPoolAddress of the stored reward options (uninterpreted)
+//@ ghost func govRewardPool(st *Store) string
+
 // the pool list is rebuilt from constants and option records on every call (read-only) — assumed
 //@ assume func (*Store).GetPoolList
 //@   modifies nothing
+//@   ensures err == nil ==> result0 != nil && fresh(result0) && has(result0, POOL_DELEGATION) && str(result0[POOL_DELEGATION]) == ndPoolAddr() && has(result0, POOL_REWARDS) && str(result0[POOL_REWARDS]) == govRewardPool(st) && has(result0, POOL_FEE) && has(result0, POOL_BOUNTY)
+//@   ensures err != nil ==> result0 == nil
